@@ -287,6 +287,12 @@ class Interp:
         root = self._root_func()
         if root is None:
             return False
+        from .known_functions import KNOWN_FUNCTIONS
+        if target.qualname not in KNOWN_FUNCTIONS and \
+                not target.is_property and \
+                not target.name.startswith("__") and \
+                target.module.name not in ("evo.core.transformations",):
+            return True      # added after the pinned tree: never an anchor
         if target.module is not root.module:
             # helpers the command modules share (extracted from evo_ape /
             # evo_rpe / evo_traj into the common glue module) are looked
@@ -665,6 +671,8 @@ class Interp:
             return const(len(c.args) > 0)
         if c.op in ("func", "cls", "closure"):
             return TRUE
+        if c.op == "mut" and c.args[1] == "append" and len(c.args[2]) == 1:
+            return TRUE           # after an append the list is not empty
         a = self.assume(c)
         if a is not None:
             return const(a)
@@ -819,6 +827,13 @@ class Interp:
             return [(target.elts[0], idx)] + \
                 self.loop_bindings(target.elts[1], it.args[1][0], lid)
         el = T("elem", it, lid)
+        iu = self.unname(it)
+        if iu.op == "binop" and iu.args[0] == "Mult":
+            for rep in (iu.args[1], iu.args[2]):
+                ru = self.unname(rep)
+                if ru.op == "list" and len(ru.args) == 1 and \
+                        tm.is_const(ru.args[0]):
+                    el = ru.args[0]   # every element of [c] * n is c
         if isinstance(target, (ast.Tuple, ast.List)):
             out = []
             for i, e in enumerate(target.elts):
@@ -955,7 +970,61 @@ class Interp:
             if not any(x.op in ("loopvar", "loopout") and x.args[1] == lid
                        for x in e.walk()):
                 return T("comp", "list", e, ((it, lid),), ())
+        fl = self._fill_loop(lv, lid, i0, upd, it)
+        if fl is not None:
+            return fl
         return T("loopout", n, lid, init, upd)
+
+    def _fill_loop(self, lv, lid, i0, upd, it):
+        """``m = np.empty((len(X), w))`` followed by ``for i, row in
+        enumerate(X): m[i] = E(row)`` is ``np.array([E(row) for row in X])``;
+        where E converts the row as a whole (np.array(row).astype(float)) it
+        is the conversion of X as a whole."""
+        def is_call_to(t, *names):
+            return t.op == "call" and tm.callee_name(t) in names
+        itu = self.unname(it)
+        if not (is_call_to(i0, "numpy.empty", "numpy.zeros") and i0.args[1]
+                and upd.op == "upd" and upd.args[0] == lv and
+                upd.args[1] is T("index", lid) and
+                tm.callee_name(itu) == "builtins.enumerate" and
+                len(itu.args[1]) == 1 and not itu.args[2]):
+            return None
+        X = itu.args[1][0]
+        shape = self.unname(i0.args[1][0])
+        ln = tm.call(tm.glob("builtins.len"), (X,), ())
+        first = shape.args[0] if shape.op in ("tuple", "list") and \
+            shape.args else shape
+        if self.unname(first) is not ln and not (
+                is_call_to(self.unname(first), "builtins.len") and
+                self.unname(self.unname(first).args[1][0]) is
+                self.unname(X)):
+            return None
+        e = upd.args[2]
+        if any(x.op in ("loopvar", "loopout") and x.args[1] == lid
+               for x in e.walk()):
+            return None
+        el = T("elem", X, lid)
+        dt = dict(i0.args[2]).get("dtype")
+        if dt is not None and dt is not tm.glob("builtins.float"):
+            return None
+        # E applied to the row as a whole: E[row := X]
+        if sum(1 for x in e.walk() if x is el) == 1:
+            conv, ok = e, True
+            while conv is not el:
+                if is_call_to(conv, "numpy.array", "numpy.asarray") and \
+                        len(conv.args[1]) == 1:
+                    conv = conv.args[1][0]
+                elif conv.op == "call" and conv.args[0].op == "attr" and \
+                        conv.args[0].args[1] == "astype" and \
+                        len(conv.args[1]) == 1:
+                    conv = conv.args[0].args[0]
+                else:
+                    ok = False
+                    break
+            if ok:
+                return e.map(lambda x: X if x is el else None)
+        comp = T("comp", "list", e, ((X, lid),), ())
+        return tm.call(tm.glob("numpy.array"), (comp,), ())
 
     def st_While(self, s, frame, live):
         lid = self.new_loop(s)
@@ -1301,7 +1370,8 @@ class Interp:
 
     def get_attr(self, base: T, name: str, frame: Frame, live: T,
                  node=None) -> T:
-        if base.op == "param" and base.args[0] == "args":
+        if base.op == "param" and base.args[0] == "args" and \
+                (base, name) not in self.attrs:
             dv = self._new_option_default(name)
             if dv is not None:
                 return dv
@@ -1401,6 +1471,28 @@ class Interp:
                     if fn is root and getattr(self, "_root_cls", None):
                         return self._root_cls   # receiver class of the run
                     return fn.cls
+        if t.op in ("sub", "elem"):
+            # an entry of a parameter annotated Sequence[X] / List[X] / ...
+            cont = t.args[0]
+            if t.op == "sub" and t.args[1].op == "slice":
+                cont = None
+            while cont is not None and cont.op == "sub" and \
+                    cont.args[1].op == "slice":
+                cont = cont.args[0]               # a slice of the sequence
+            if cont is not None and cont.op == "param":
+                for fn in (self._root_func(), frame.func):
+                    ann = fn.annotation(cont.args[0]) if fn else None
+                    if isinstance(ann, ast.Subscript):
+                        outer = ast.unparse(ann.value).rsplit(".", 1)[-1]
+                        if outer in ("Sequence", "List", "Iterable", "list",
+                                     "Collection", "Iterator",
+                                     "MutableSequence") and isinstance(
+                                ann.slice, (ast.Name, ast.Attribute,
+                                            ast.Constant)):
+                            c = self._class_from_annotation(ann.slice,
+                                                            fn.module)
+                            if c is not None:
+                                return c
         if t.op == "call" and t.args[0].op == "cls":
             return self.prog.classes.get(t.args[0].args[0])
         if t.op == "selfobj":
@@ -1861,6 +1953,11 @@ class Interp:
                 if len(args) == 2:
                     return args[1]
         if fn.op == "global" and fn.args[0] == "builtins.getattr" and \
+                len(args) == 3 and not kwargs and \
+                tm.is_const(args[1]) and self.attr_absent is not None and \
+                self.attr_absent(args[0], tm.const_val(args[1])) is True:
+            return args[2]            # the rule knows the attribute is unset
+        if fn.op == "global" and fn.args[0] == "builtins.getattr" and \
                 not kwargs and len(args) in (2, 3) and \
                 tm.is_const(args[1]) and \
                 isinstance(tm.const_val(args[1]), str) and (
@@ -1971,12 +2068,27 @@ class Interp:
             r = self._fold_isinstance(args[0], args[1], frame)
             if r is not None:
                 return const(r)
+        if name == "functools.reduce" and len(args) in (2, 3) and not kwargs:
+            # a fold over a completely known sequence: unrolled
+            its = literal_items(args[1], self.unname)
+            if its is not None and len(its) <= 8 and \
+                    (its or len(args) == 3) and \
+                    self.unname(args[0]).op in ("closure", "func"):
+                acc = args[2] if len(args) == 3 else its[0]
+                for x in (its if len(args) == 3 else its[1:]):
+                    acc = self.do_call(self.unname(args[0]), [acc, x], [],
+                                       node, frame, live)
+                return acc
         if name == "builtins.len" and len(args) == 1:
             au = self.unname(args[0])
             if au.op in ("tuple", "list", "set", "dict"):
                 if not any(x.op == "star" for x in au.args
                            if isinstance(x, T)):
                     return const(len(au.args))
+        if name == "builtins.getattr" and len(args) == 3 and \
+                tm.is_const(args[1]) and self.attr_absent is not None and \
+                self.attr_absent(args[0], tm.const_val(args[1])) is True:
+            return args[2]            # the rule knows the attribute is unset
         if name == "builtins.getattr" and len(args) >= 2 and \
                 tm.is_const(args[1]) and isinstance(tm.const_val(args[1]),
                                                     str):
@@ -2385,6 +2497,12 @@ def literal_items(it: T, unname=lambda v: v, known_len=None
         if any(x.op == "star" for x in it.args):
             return None
         return list(it.args)
+    if it.op == "mut" and it.args[1] == "append" and len(it.args[2]) == 1:
+        # a literal list that grew by unconditional appends
+        base = literal_items(it.args[0], unname, known_len)
+        if base is None or unname(it.args[0]).op == "tuple":
+            return None
+        return base + [it.args[2][0]]
     if it.op == "const" and isinstance(tm.const_val(it), str) and \
             len(tm.const_val(it)) <= 8:
         return [const(ch) for ch in tm.const_val(it)]   # characters
